@@ -1,16 +1,28 @@
 (* C08 - HTTP/1.1 responses are delimited per RFC 7230 whatever the segmentation.
-   Only property theorems here, each closed by [exact]. *)
-From Coq Require Import List NArith ZArith Bool.
-From Wpull Require Import Lib.Conn Model.PyText Model.Decomp Model.Chunked Model.HttpMsg Proofs.HttpProofs.
+   Only property theorems here, each closed by [exact].
+
+   run o P bs     : Stream.read_response + Stream.read_body (Model/HttpMsg.v) on a
+                    connection that delivers the byte stream [bs] and then EOF, cut
+                    into reads by the segmentation oracle [o] (Lib/Conn.v); P = request
+                    method HEAD?, request version 1.0?, keep_alive, ignore_length.
+   wf_response    : the declarative RFC 7230 reference (Spec/HttpFraming.v), written
+                    without the reader: interim 1xx heads, header block, then no body
+                    (HEAD/1xx/204/304) | chunked grammar with extensions and trailers |
+                    Content-Length bytes | everything up to the close.
+   reference      : the C19 content-decoding reference (Model/Decomp.v).
+   All theorems hold for EVERY zlib machine (zst, zinit, zstep, zeof, zfl). *)
+From Coq Require Import List NArith ZArith Bool String.
+From Wpull Require Import Lib.Conn Model.PyText Model.Decomp Model.Chunked Model.HttpMsg Spec.HttpFraming
+  Proofs.HttpProofs Proofs.HttpRefProofs Proofs.HttpTruncProofs Proofs.HttpExamples.
 Import ListNotations.
+Open Scope string_scope.
+Open Scope list_scope.
 Open Scope N_scope.
 
-(* For EVERY byte stream (well-formed or not), every pair of segmentation
-   oracles (= every two ways the stream can be cut into reads, down to single
-   bytes), every zlib machine and every request parameter set: what the caller
-   sees of one exchange - error kind, or parsed response (version, status,
-   reason, fields incl. trailers), decoded body and the bytes reported to the
-   read listeners - is the same. *)
+(* (1) For EVERY byte stream (well-formed or not) and every two segmentations
+   (down to single bytes): what the caller sees of one exchange - error kind, or
+   parsed response (version, status, reason, fields incl. trailers), decoded body
+   and the bytes reported to the read listeners - is the same. *)
 Theorem C08_segmentation_independent :
   forall zst zinit zstep zeof zfl (o1 o2 : oracle) (P : params) (bs : list N),
     observe (run zst zinit zstep zeof zfl o1 P bs) = observe (run zst zinit zstep zeof zfl o2 P bs).
@@ -18,8 +30,8 @@ Proof. exact segmentation_independent. Qed.
 Print Assumptions C08_segmentation_independent.
 
 (* ... and so is the connection afterwards (unread bytes, EOF seen), unless
-   wpull itself closed it in one of the two runs (which it does only on the
-   overrun of a length-delimited body or by the keep-alive decision). *)
+   wpull itself closed it in one of the two runs (overrun of a length-delimited
+   body, keep-alive decision). *)
 Theorem C08_connection_state_independent :
   forall zst zinit zstep zeof zfl (o1 o2 : oracle) (P : params) (bs : list N) a1 s1 a2 s2,
     run zst zinit zstep zeof zfl o1 P bs = Ok a1 s1 ->
@@ -27,3 +39,99 @@ Theorem C08_connection_state_independent :
     closed s1 = false -> closed s2 = false -> s1 = s2.
 Proof. exact connection_state_independent. Qed.
 Print Assumptions C08_connection_state_independent.
+
+(* (2) A well-formed message [bs] followed by ANY surplus bytes (none after a
+   close-delimited message, whose end is the EOF), under every segmentation:
+   the result is the message of the reference - its status line and fields
+   (trailers merged), the payload delimited by chunked > Content-Length > close
+   (none for HEAD/1xx/204/304) with the content coding removed - or
+   ProtocolError when the content coding is corrupt; and afterwards
+     recd = bs                      exactly the message was consumed and reported,
+     open  -> the connection holds exactly [surplus] (the next response will
+              be parsed from its first byte),
+     closed -> nothing of the surplus is left (discarded with the connection),
+     the connection is closed iff wants_close (Connection: close / HTTP/1.0 /
+     keep_alive off), except that a surplus after a LENGTH-delimited body may
+     also close it (overrun: "surplus bytes are discarded with the connection"). *)
+Theorem C08_matches_reference :
+  forall zst zinit zstep zeof zfl (o : oracle) (P : params) (bs : list N) (m : message) (surplus : list N),
+    wf_response P 0 bs m -> (m_delim m = DClose -> surplus = []) ->
+    match reference zst zinit zstep zeof zfl (content_kind (m_head m)) (m_payload m) with
+    | None => run zst zinit zstep zeof zfl o P (bs ++ surplus) = Err ProtocolErr
+    | Some body =>
+        exists s', run zst zinit zstep zeof zfl o P (bs ++ surplus) = Ok (m_resp m, body) s'
+                   /\ final_state_ok P m bs surplus false [] s'
+    end.
+Proof. exact matches_reference. Qed.
+Print Assumptions C08_matches_reference.
+
+(* (3) Lockstep on a persistent connection: when the bytes of each response
+   arrive only after the previous exchange completed, and every message is
+   well-formed, decodable, not close-delimited and does not ask for the
+   connection to be closed, then EVERY exchange of the sequence returns its
+   own reference message and reports exactly its own bytes - response k+1 is
+   parsed from its first byte - for every segmentation of every response. *)
+Theorem C08_lockstep :
+  forall zst zinit zstep zeof zfl (o : oracle) (xs : list (params * list N * message)),
+    Forall (keeps_open zst zinit zstep zeof zfl) xs ->
+    forall ef rc,
+      map observe (lockstep zst zinit zstep zeof zfl o (map fst xs) (mkSt (mkConn [] ef) rc false))
+      = map (expected zst zinit zstep zeof zfl) xs.
+Proof. exact lockstep_reference. Qed.
+Print Assumptions C08_lockstep.
+
+(* (4) A well-formed message cut by the peer at ANY position before its payload
+   is complete (m_complete: end of the header block for bodiless and
+   close-delimited messages, end of the Content-Length bytes, end of the
+   last-chunk line) is an error (ProtocolError or NetworkError) under every
+   segmentation - never a shorter successful download.  (After the last-chunk
+   line only trailer fields are missing: wpull accepts EOF there, the payload is
+   complete; a close-delimited body cannot be told from a cut one.) *)
+Theorem C08_truncated_is_error :
+  forall zst zinit zstep zeof zfl (o : oracle) (P : params) (bs : list N) (m : message) (n : nat),
+    wf_response P 0 bs m -> (n < m_complete m)%nat ->
+    is_error (run zst zinit zstep zeof zfl o P (firstn n bs)).
+Proof. exact truncated_is_error. Qed.
+Print Assumptions C08_truncated_is_error.
+
+(* ---------------- non-vacuity ---------------- *)
+(* the reference admits: an interim 100, then a chunked 200 with a chunk
+   extension and a trailer field; a Content-Length message with odd header
+   spelling on a connection that stays open; a close-delimited 404 *)
+Example C08_wf_chunked_nonvacuous :
+  exists m, wf_response P11 0 ex1_bytes m /\ m_payload m = s2b "hello" /\ m_delim m = DChunked
+            /\ r_status (m_resp m) = 200 /\ fget (s2b "X-T") (r_fields (m_resp m)) = Some (s2b "1").
+Proof. exact ex1_wf. Qed.
+
+Example C08_wf_length_nonvacuous :
+  exists m, wf_response P11 0 ex2_bytes m /\ m_payload m = s2b "hello" /\ m_delim m = DLength
+            /\ wants_close P11 m = false /\ m_complete m = List.length ex2_bytes /\ content_kind (m_head m) = KIdentity.
+Proof. exact ex2_wf. Qed.
+
+Example C08_wf_close_nonvacuous :
+  exists m, wf_response P11 0 ex3_bytes m /\ m_payload m = s2b "gone" /\ m_delim m = DClose.
+Proof. exact ex3_wf. Qed.
+
+(* the hypotheses of (3) hold for a two-exchange sequence *)
+Example C08_lockstep_nonvacuous :
+  exists m, Forall (keeps_open unit (fun _ => tt) (fun _ _ => None) (fun _ => true) (fun _ => []))
+                   [(P11, ex2_bytes, m); (P11, ex2_bytes, m)].
+Proof.
+  destruct ex2_wf as (m & Hwf & Hp & Hd & Hc & _ & Hk). exists m.
+  assert (K : keeps_open unit (fun _ => tt) (fun _ _ => None) (fun _ => true) (fun _ => []) (P11, ex2_bytes, m)).
+  { repeat split; try assumption; [congruence|]. rewrite Hk. discriminate. }
+  constructor; [exact K|]. constructor; [exact K|]. constructor.
+Qed.
+
+(* the model, run on these streams byte by byte (oracle: one byte per read)
+   and on a truncation: the values the theorems predict *)
+Example C08_model_runs :
+  let run1 := run unit (fun _ => tt) (fun _ _ => None) (fun _ => true) (fun _ => []) (fun _ => O) P11 in
+  (match run1 (ex1_bytes ++ [88; 89]) with
+   | Ok (r, b) s => (r_status r, b, closed s, pending (cn s), list_eqb (recd s) ex1_bytes)
+   | Err _ => (0, [], true, [], false)
+   end) = (200, s2b "hello", false, [88; 89], true)
+  /\ (match run1 (firstn 60 ex1_bytes) with Err NetworkErr => true | _ => false end) = true
+  /\ (match run1 ex3_bytes with Ok (r, b) s => (r_status r, b, eof_hit (cn s)) | Err _ => (0, [], false) end)
+     = (404, s2b "gone", true).
+Proof. vm_compute. repeat split. Qed.
